@@ -225,6 +225,23 @@ def cases(ctx):
                            ref="median", minpts=mm[ci % 5][0], minint=mm[ci % 5][1])
 
 
+def edge_maximum_cases(ctx):
+    """The maximum (and a few other observations) exactly on the m-th interval edge, for every m up to 60 and decimal
+    widths: whether float round-off in the number of intervals loses the interval that holds the maximum depends on
+    the particular multiple (0.6, 3.4, 3.9 for width 0.1; 1.2 for 0.2; ...), far beyond the exhaustive lattice."""
+    halves = ["0.05", "0.1", "0.15", "0.3", "0.35", "0.7", "0.025", "0.2", "0.45"]   # width = 2 * unit
+    mm = [(1, 1), (1, 2)]
+    ci = ctx.seed
+    for unit in halves:
+        for m in range(1, ctx.pick(45, 70)):
+            for extra in ((), (0,), (2 * m - 1, 2 * (m // 2))):
+                for ropen in (True, False):
+                    ci += 1
+                    yield dict(kind="width", data=list(extra) + [2 * m], unit=unit, ropen=ropen, vrange=None, offset=0,
+                               reuse=False, ref=["center", "left", "right", "median"][ci % 4],
+                               minpts=mm[ci % 2][0], minint=mm[ci % 2][1])
+
+
 def random_cases(ctx):
     """Long vectors with ties / rounding / arbitrary order / value_range."""
     rng = np.random.default_rng(ctx.seed + 101)
@@ -298,6 +315,7 @@ def run(ctx):
     # V: exhaustive lattice domain on the real code
     cl = list(cases(ctx))
     recs = judge(ctx, vc, cl, "lattice domain")
+    judge(ctx, vc, list(edge_maximum_cases(ctx)), "maximum on the m-th edge")
     ctx.sample({"case": cl[len(cl) // 2], "record": recs[len(cl) // 2]})
     rl = list(random_cases(ctx))
     recs2 = judge_offset(ctx, vc, rl, len(cl))
